@@ -943,6 +943,9 @@ def check_C16(run):
                 c["cap"] = ln
             if fk:
                 c["fault"] = {"k": fk, "e": (16, 14, 17)[k % 3]}
+            # every third command copy-constructs the wrapper somewhere in the sequence and goes on with the copy
+            if k % 3 == 0 and len(seq) > 1:
+                c["copyat"] = 1 + (k // 3) % (len(seq) - 1)
             cmds.append(c)
             k += 1
         # every sequence of length 2 under every configuration (limit x source length / capacity x failing call)
@@ -1020,6 +1023,8 @@ def check_C17(run):
                             c["src"] = [(33 + 5 * i) % 256 for i in range(ln)]
                         else:
                             c["cap"] = ln
+                        if bounded and k % 3 == 0 and len(seq) > 1:
+                            c["copyat"] = 1 + (k // 3) % (len(seq) - 1)
                         cmds.append(c)
                         k += 1
     # blocks larger than PIPE_BUF into a pipe that has room for only part of them (a short write must not pass for a
